@@ -41,7 +41,8 @@ STUBS = MAPH.STUBS
 def EXTRA_STUBS():
     from symx import install, core
     PU = install.mod("osyris.plot.utils")
-    return {"osyris.plot.utils": {"prange": core.sym_range},
+    return {"osyris.plot.utils": dict(C.njit_helpers_as_python("osyris.plot.utils", skip=("evaluate_on_grid", "hist2d")),
+                                      prange=core.sym_range),
             "osyris.plot.histogram2d": {"hist2d": PU.hist2d.py_func},
             "osyris.plot.map": {"evaluate_on_grid": PU.evaluate_on_grid.py_func}}
 
@@ -71,6 +72,9 @@ def configs(tier):
         for bins in ("int", "edges"):
             out.append(dict(kind="hist1d", opts=opts, bins=bins, logx=False))
     out.append(dict(kind="hist1d", opts="both", bins="int", logx=True))
+    for first in ("int", "edges"):
+        for call in ("none", "int", "edges"):
+            out.append(dict(kind="hist1d-two", first=first, call=call))
     if tier != "quick":
         for opts in ("layer", "call", "neither"):
             for bins in ("int", "edges"):
@@ -153,6 +157,8 @@ def body(m, cfg):
         return _map(m, cfg)
     if cfg["kind"] == "hist1d":
         return _hist1d(m, cfg)
+    if cfg["kind"] == "hist1d-two":
+        return _hist1d_two(m, cfg)
     if cfg["kind"] == "scatter":
         return _scatter(m, cfg)
     if cfg["kind"] == "plot1d":
@@ -190,6 +196,39 @@ class FakeAxes:
 class FakeFigure:
     def savefig(self, *a, **k):
         raise AssertionError("no file requested")
+
+
+def _hist1d_two(m, cfg):
+    """Two layers in one histogram1d call: the first sets its own bins, the second leaves them unset and must get the
+    call-level value (or the function's default), not the first layer's."""
+    import osyris
+    from osyris import Array
+    from osyris.core.layer import Layer
+    first, call = cfg["first"], cfg["call"]
+    tag = f"hist1d-two:{first}:{call}"
+    x1 = Array(m.array("x", (3,), "float64"), unit="cm", name="xs")
+    x2 = Array(m.array("z", (3,), "float64"), unit="cm", name="zs")
+    edges1 = np.array([0.0, 1.0, 2.5, 4.0])
+    edges2 = np.array([0.0, 2.0, 4.0, 6.0, 8.0])
+    l1 = Layer(x1, bins=(2 if first == "int" else edges1))
+    l2 = Layer(x2)
+    kw = {} if call == "none" else {"bins": (3 if call == "int" else edges2)}
+    ax = FakeAxes()
+    osyris.histogram1d(l1, l2, ax=ax, **kw)
+    hist = [c for c in ax.calls if c[0] == "hist"]
+    if not m.require(len(hist) == 2, "one histogram drawn per layer", key=f"calls:{tag}"):
+        return
+    nb1 = len(m.vals(hist[0][2])) - 1
+    nb2 = len(m.vals(hist[1][2])) - 1
+    m.require(nb1 == (2 if first == "int" else 3), "the first layer uses its own bins", key=f"precedence-bins:{tag}", info=nb1)
+    want2 = {"none": 50, "int": 3, "edges": 4}[call]
+    m.require(nb2 == want2, "a layer that leaves bins unset gets the call-level bins (or the default), not another layer's",
+              key=f"precedence-unset:{tag}", info={"got": nb2, "want": want2})
+    if call == "edges" and nb2 == want2:
+        m.require(hist[1][2] is kw["bins"] or np.array_equal(np.asarray(hist[1][2], dtype=float), edges2), "call-level bin edges used as given",
+                  key=f"precedence-unset:{tag}")
+    m.check("each layer histograms its own data", m.And(m.all_close(m.vals(hist[0][1]), m.vals(x1._array)),
+                                                        m.all_close(m.vals(hist[1][1]), m.vals(x2._array))), key=f"data:{tag}")
 
 
 def _hist1d(m, cfg):
